@@ -94,6 +94,9 @@ func run(e *core.Env) {
 	node.CaptureStderr()
 	cn := simnet.NewConnNet(e)
 	fabric := linkpair.NewFabric(cn)
+	// One connection attempt takes 2..60 simulated milliseconds (shipped code re-dials at once,
+	// without back-off, when a freshly set-up link is refused while it has no other link).
+	fabric.DialLatency = time.Duration(2+tp.Intn(59)) * time.Millisecond
 	n := 2 + tp.Intn(2)
 	universe := []string{"", "uni-a"}[tp.Intn(2)]
 	secret := ""
@@ -262,13 +265,20 @@ func run(e *core.Env) {
 					ok = x.in.Stop()
 				}()
 				finished := false
-				for k := 0; k < 4000 && !finished; k++ {
-					for _, y := range running {
-						if y != x && y.up && tp.Chance(1, 3) {
-							_, _, _ = y.in.Router().PingPong.Send(x.in.Identity().IP, true, 0)
+				// Stop itself gives each module's workers up to a minute; six
+				// simulated minutes are far beyond any honest stop.
+				deadline := time.Now().Add(6 * time.Minute)
+				for k := 0; !finished && time.Now().Before(deadline); k++ {
+					if k < 200 {
+						for _, y := range running {
+							if y != x && y.up && tp.Chance(1, 3) {
+								_, _, _ = y.in.Router().PingPong.Send(x.in.Identity().IP, true, 0)
+							}
 						}
+						cn.RunFor(tp, time.Duration(5+tp.Intn(60))*time.Millisecond, 2000)
+					} else {
+						cn.RunFor(tp, 5*time.Second, 2000)
 					}
-					cn.RunFor(tp, time.Duration(5+tp.Intn(60))*time.Millisecond, 2000)
 					select {
 					case <-done:
 						finished = true
@@ -317,7 +327,7 @@ func TestCheck(t *testing.T) {
 		LeakIsViolation: true,
 		QuickRuns:       160,
 		ThoroughRuns:    16000,
-		MinimiseBudget:  60,
+		MinimiseBudget:  12,
 		Run:             run,
 	})
 }
